@@ -9,6 +9,15 @@
 // property oracle* keeps a flat std::vector<(id,label)> per slot, updates it by the
 // documented meaning of each operation, and compares it with what the real dataset
 // contains after every op ("!oracle <tag>" is appended to the output line on failure).
+// Sharing: every state line carries `ind=xy` per slot (is the input / label container independent, i.e. do all its
+// batch pointers have use-count 1); the Lean side computes the same from its heap model (Model/DatasetShared.lean).
+// `repart splitb splitat splice rbc` call makeIndependent() first, `rrepart rsplitb rsplitat rsplice rrbc` do not (the
+// library then throws exactly when something is shared), `indep` is makeIndependent() alone, `setel cpel vset` write in
+// place through element proxies of a dataset / a view (every holder of the batch changes), `mk3` is the sized
+// constructor, `ushuf` UnlabeledData::shuffle, `vrand` randomSubset; all ops are listed in lean/Driver/C03.lean.
+// The oracle also re-reads every state through the non-const element and batch proxies, repeats every iterator jump on
+// the Data<I> / Data<label> (const and non-const) and non-const LabeledData iterators, and rebuilds every view as
+// DataView<LabeledData const>, DataView<UnlabeledData const> and DataView<Data<label> const>.
 #include <shark/Data/Dataset.h>
 #include <shark/Data/DataView.h>
 #include "common.hpp"
@@ -340,6 +349,7 @@ struct Harness{
 		auto allBelow = [&](std::size_t from, std::size_t bound){ for(std::size_t i = from; i < a.size(); ++i) if(a[i] >= bound) return false; return true; };
 		auto full = [&](std::size_t s){ return !hasEmptyBatch(d[s]); };
 		if(op == "new") return a.size() >= 3 && slot(0);
+		if(op == "reset") return a.empty();
 		if(op == "mk3") return a.size() == 5 && slot(0);
 		if(op == "ushuf") return a.size() == 3 && slot(0) && slot(1) && full(a[0]) && ne(a[0]) >= 1;
 		if(op == "indep") return a.size() == 1 && slot(0);
@@ -417,6 +427,11 @@ struct Harness{
 		bool raw = op0 == "rrepart" || op0 == "rsplitb" || op0 == "rsplitat" || op0 == "rsplice" || op0 == "rrbc";
 		std::string op = raw ? op0.substr(1) : op0;
 		typedef typename DS::element_type Pair;
+		if(op == "reset"){
+			for(std::size_t k = 0; k != 4; ++k){ d[k] = DS(); sh[k].clear(); }
+			for(std::size_t k = 0; k != 2; ++k){ v[k] = View(); vset[k] = false; vsh[k].clear(); }
+			return "";
+		}
 		if(op == "mk3"){
 			// the element is a blueprint (vector-valued batches take its size only): fill like toDataset does
 			DS r(a[1], Pair(Codec<I>::enc(a[3]), (unsigned int)a[4]), a[2]);
@@ -660,7 +675,7 @@ struct Harness{
 			} else os << "end";
 			return os.str();
 		}
-		if(op == "view"){ v[a[0]] = View(d[a[1]]); vset[a[0]] = true; vsh[a[0]] = sh[a[1]]; return ""; }
+		if(op == "view"){ v[a[0]] = View(d[a[1]]); vset[a[0]] = true; vsh[a[0]] = sh[a[1]]; viewFlavours(a[1]); return ""; }
 		if(op == "vsub"){
 			std::vector<std::size_t> idx(a.begin() + 2, a.end());
 			View w = subset(v[a[0]], idx); Flat f = gather(vsh[a[0]], idx);
@@ -722,6 +737,37 @@ struct Harness{
 			if(e != sh[slot][q]) fail("iterator-flavour LabeledData-non-const-deref");
 			Elem e2(Codec<I>::dec(*(c.inputs().elements().begin() + q)), *(c.labels().elements().begin() + q));
 			if(e2 != sh[slot][q]) fail("iterator-flavour Data-deref");
+		}
+	}
+	// the other flavours of DataView over the same data (oracle only): a view over a const LabeledData, over the
+	// UnlabeledData of the inputs and over the Data of the labels; index(), iterators, subset and toDataset of them
+	void viewFlavours(std::size_t slot){
+		DS const& c = d[slot];
+		Flat const& f = sh[slot];
+		DataView<DS const> cv(c);
+		DataView<UnlabeledData<I> const> uv(c.inputs());
+		DataView<Data<unsigned int> const> lv(c.labels());
+		if(cv.size() != f.size() || uv.size() != f.size() || lv.size() != f.size()){ fail("view-flavour-size"); return; }
+		for(std::size_t i = 0; i != f.size(); ++i){
+			if(Elem(Codec<I>::dec(cv[i].input), cv[i].label) != f[i] || cv.index(i) != i){ fail("view-flavour const-LabeledData"); break; }
+			if(Codec<I>::dec(uv[i]) != f[i].first || uv.index(i) != i){ fail("view-flavour UnlabeledData"); break; }
+			if(lv[i] != f[i].second || lv.index(i) != i){ fail("view-flavour Data<label>"); break; }
+		}
+		std::size_t k = 0;
+		for(auto it = cv.begin(); it != cv.end(); ++it, ++k)
+			if(it.index() != k || Elem(Codec<I>::dec((*it).input), (*it).label) != f[k]){ fail("view-flavour const-iterator"); break; }
+		if(k != f.size()) fail("view-flavour const-iterator-count");
+		if(f.empty()) return;
+		// every second element, back to front, through subset and toDataset of the unlabeled / label views
+		std::vector<std::size_t> idx;
+		for(std::size_t i = f.size(); i-- > 0; ) if(i % 2 == 0) idx.push_back(i);
+		UnlabeledData<I> ub = toDataset(subset(uv, idx), 2);
+		Data<unsigned int> lb = toDataset(subset(lv, idx), 2);
+		if(ub.numberOfElements() != idx.size() || lb.numberOfElements() != idx.size() || ub.getPartitioning() != lb.getPartitioning()){ fail("view-flavour toDataset-structure"); return; }
+		for(std::size_t s: ub.getPartitioning()) if(s == 0 || s > 2) fail("view-flavour toDataset-batch-size");
+		for(std::size_t j = 0; j != idx.size(); ++j){
+			if(Codec<I>::dec(ub.element(j)) != f[idx[j]].first || lb.element(j) != f[idx[j]].second){ fail("view-flavour toDataset-elements"); break; }
+			if(subset(uv, idx).index(j) != idx[j]){ fail("view-flavour subset-index"); break; }
 		}
 	}
 	static bool pureBatches(DS const& s){
